@@ -251,6 +251,12 @@ def _strict(ctx, rep, cm):
         if isinstance(a, ast.Assign) and len(a.targets) == 1 and isinstance(a.targets[0], ast.Subscript) \
                 and isinstance(a.targets[0].value, ast.Name):
             dedup.add(a.targets[0].value.id)
+        # local tables created empty (and meant to be filled as values are seen)
+        if isinstance(a, ast.Assign) and len(a.targets) == 1 and isinstance(a.targets[0], ast.Name) and (
+                (isinstance(a.value, ast.Dict) and not a.value.keys) or
+                (isinstance(a.value, ast.Call) and isinstance(a.value.func, ast.Name)
+                 and a.value.func.id in ("dict", "set") and not a.value.args)):
+            dedup.add(a.targets[0].id)
     for node in ast.walk(f):
         if not isinstance(node, ast.If):
             continue
